@@ -17,6 +17,7 @@ class SessionPeer(object):
         self.sock = socket.socket(socket.AF_INET, socket.SOCK_STREAM)
         self.sock.bind(("127.0.0.1", 0))
         self.sock.listen(16)
+        self.sock.settimeout(None)
         self.port = self.sock.getsockname()[1]
         self.lock = threading.Lock()
         self.messages, self.accepted, self.fail_next = [], 0, False
